@@ -68,18 +68,40 @@ SPEC = dict(
          "the matrix on the sequence and of the reverse-complemented matrix on the reverse-complemented sequence at every "
          "position. PROPFAIL: extracted checkers (rc = row reversal + complement permutation from the translated table, rc "
          "twice = identity bit for bit incl. sequence count and background, commutation within 1e-6 relative "
-         "(weights/frequencies) or 1e-5 (scores) when background and pseudocounts are strand-symmetric, exact commutation "
-         "with to_scoring, mirrored scores within M*2^-23*sum|terms|). DIFF: bit-exact comparison with the extracted "
-         "binary32 model (incl. the background after one rc). Non-trivial: distinct (matrix source, scoring matrix, "
+         "(weights/frequencies) or 1e-5 (scores) when background and pseudocounts are strand-symmetric (extracted "
+         "strand_symmetric; what a passing comparison states: C10_commutation_check_sound), exact commutation "
+         "with to_scoring, mirrored scores within M*2^-23*sum|terms| (check_mirror; judged cases: C10_check_mirror_sound2, "
+         "incl. bit equality when a term is -inf)). Comparisons not made are counted per case and printed behind the "
+         "verdict (`OK skipped=mirror:nan-or-inf:<n>`: a term or a score NaN, a term +inf, finite terms with an overflowed "
+         "score - extracted mirror_skipped; `skipped=rc-commutation:subnormal-frequency`). DIFF: bit-exact comparison with "
+         "the extracted binary32 model (incl. the background after one rc). Theorems: coq/pwm/C10.v (20). Non-trivial: distinct (matrix source, scoring matrix, "
          "sequence, background, pseudocounts) of width >= 2 with at least one window.",
     trusted_base=[
-        "Coq 8.16.1 kernel (coqc); Flocq 4.1.0 (binary32 semantics); vm_compute only in finite sweeps / Example lemmas",
-        "extraction: ExtrOcamlBasic only (nat, N, Z, positive, Q kept as extracted inductives); OCaml 4.13.1",
+        "Coq 8.16.1 kernel (coqc); Flocq 4.1.0 (binary32 semantics); vm_compute only in finite sweeps / Example lemmas "
+        "(incl. C10_mirror_overflow_example); no native_compute",
+        "extraction: ExtrOcamlBasic only (its Extract Inductive directives for bool, option, list, prod, unit, sumbool, "
+        "sumor); no other Extract Inductive (nat, N, Z, positive, Q kept as extracted inductives); OCaml 4.13.1. The driver "
+        "binary is shared with C09, so the ONE Extract Constant of the whole development is linked in: coq/pwm/Extract.v "
+        "realises ClassicalDedekindReals.sig_forall_dec as a function that raises (\"real-number computation reached\") "
+        "because the verified interval-arithmetic checker of C09 (coq-interval / Interval library, coq/pwm/PwmLog.v) mentions "
+        "it in dead code; no C10 path uses the interval checker; a call would abort the driver (reported as DIFF), never "
+        "decide a verdict",
         "translator translate/pwm_complement.py (regex extraction of enum discriminants, symbols(), as_str(), "
         "complement() arms from abc.rs into coq/pwm/GenComplement.v); the translate step of this SPEC also regenerates "
         "coq/pwm/GenPwmSkel.v (translate/pwm_skel.py, statement skeletons of pwm/mod.rs used by C09_source_skeleton) because "
         "groups importing LMPwm (e2e, sampler) call this translator",
-        "hand-written OCaml driver ocaml/pwm/driver.ml (parsing, oracle table, tolerances, comparison)",
+        "hand-written OCaml driver ocaml/pwm/driver.ml (parsing, oracle table and its validation by hand-written "
+        "double-precision code - DIFF path only, tolerances, the iteration around the extracted checkers, counting of the "
+        "skipped comparisons)",
+        "PROPFAIL decisions of ocaml/pwm/driver.ml that are NOT an extracted checker: panics of calls that must not panic "
+        "(unexpected-panic); sequence count unchanged by reverse_complement twice (`c2n <> n`, string equality of the "
+        "printed n); the reverse-complemented sequence of the harness equals the table's (`rseq <> rc_seq_dna seq`, "
+        "structural equality of extracted nat lists); background unchanged by reverse_complement: compared by the extracted "
+        "row_same, the PROPFAIL decision is driver code (the matrix model has no background field, so there is no theorem); "
+        "the selection of the cases in which the commutation checks apply (extracted strand_symmetric of pseudocounts / "
+        "background, hand-written normal-or-zero test of the frequency cells). Every other PROPFAIL is the verdict of one "
+        "extracted checker (check_rc_N / check_rc_f32, cm_same / fm_same, fm_close, check_mirror, "
+        "complement_involutive_b)",
         "Rust harness harness/src/bin/pwm.rs (builds the reverse-complemented sequence with Dna::complement, "
         "stripes with the generic pipeline, catch_unwind)",
         "modelled, not verified: pwm/mod.rs reverse_complement / to_freq / to_weight / to_scoring / score_position "
@@ -96,6 +118,16 @@ SPEC = dict(
         "(C10_revcomp_commutes_to_freq_f32: the two routes agree within 1e-6 relative cell by cell, for nonnegative finite "
         "cells, finite positive row sums and quotients that are zero or normal numbers; the driver skips the "
         "commutation checks when a frequency cell is subnormal)",
+        "C10_revcomp_commutes needs strand-symmetric pseudocounts as well as a strand-symmetric background: every scalar "
+        "pseudocount is (C10_pseudo_scalar_symmetric, C10_revcomp_commutes_scalar_pseudo: hypothesis on the background "
+        "only); a per-symbol pseudocount vector must satisfy p_A = p_T, p_C = p_G (the driver applies the commutation checks "
+        "only then)",
+        "the binary32 composite commutation count -> frequency -> weight / score (checks wcc 1e-6, scc 1e-5) is checked, not "
+        "proved (only the frequency step has a theorem: C10_revcomp_commutes_to_freq_f32); what a passing check states: "
+        "C10_commutation_check_sound",
+        "mirrored scores are not judged when a term or a score is NaN, a term is +inf, or a score overflowed "
+        "(C10_mirror_overflow_example: with finite terms the two summation orders may legitimately differ, one overflowing "
+        "and the other not); counted in the verdict (`skipped=mirror:nan-or-inf:n`)",
         "flog2 (libm log2f) is a Section variable; commutation with to_scoring holds for any flog2",
         "the sequence is reverse-complemented outside the library (no such function exists in lightmotif)",
     ],
